@@ -1,12 +1,14 @@
 import AcraModel.Envelope.Poison
+import AcraModel.Envelope.PoisonLemmas
 import AcraModel.Generated.Wiring
+import AcraModel.Props.C01
 /-!
 # C15 — poison records always raise the alarm, ordinary data never does
 
 Property theorems only. Model: `AcraModel/Envelope/Poison.lean` (on top of the detector model).
 -/
 namespace AcraModel.Props.C15
-open AcraModel AcraModel.Envelope Generated
+open AcraModel AcraModel.Envelope Generated AcraModel.Props.C01
 
 /-- In both SQL proxies the poison detector is registered on the envelope detector before the
 decrypt handler (and after the compatibility wrapper, which only records hits): a value is
@@ -19,5 +21,455 @@ theorem fact_poison_first :
 theorem fact_translator_checks :
     Wiring.translatorPoisonChecks.map (·.1) = ["Decrypt", "DecryptSearchable", "DecryptSymSearchable", "DecryptSym"] ∧
     ∀ p ∈ Wiring.translatorPoisonChecks, 1 ≤ p.2 := by decide
+
+/-! ## 1. the traced scan computes the same bytes as the plain one
+
+The alarm count is the second component of `scanT` / `onColumnT` / `onColumnCompatT` / `proxyOnColumn` /
+`translatorDecrypt`. These functions return only after every callback has run, so a positive count
+in the returned pair means: the intrusion callbacks ran BEFORE the value was delivered. The first
+component is what is delivered; the theorems of this section say that it is exactly what the
+untraced functions of `Detector.lean` compute, so every C01/C03 theorem about `scan`, `onColumn`,
+`onColumnCompat` is a theorem about the delivered value. -/
+
+/-- **Threading the alarm counter through the scan does not change what the scan returns**: the output
+component of the traced scan is the plain scan run on the callbacks with their alarm bit dropped. -/
+theorem scanT_output (cbsT : List CallbackT) (rest : Bytes) :
+    (scanT cbsT rest).1 = scan (cbsT.map (fun f x => (f x).1)) rest := scanT_fst cbsT rest
+
+/-- … in particular for callbacks that never raise the alarm (`plainT`) it is the plain scan. -/
+theorem scanT_output_plain (cbs : List Callback) (rest : Bytes) :
+    (scanT (cbs.map plainT) rest).1 = scan cbs rest := by
+  rw [scanT_fst, outCbs_plainT]
+
+/-- The same for `EnvelopeDetector.OnColumn` … -/
+theorem onColumnT_output (cbsT : List CallbackT) (d : Bytes) :
+    (onColumnT cbsT d).1 = onColumn (cbsT.map (fun f x => (f x).1)) d := onColumnT_fst cbsT d
+
+/-- … and for the whole compatibility wrapper `OldContainerDetectorWrapper.OnColumn` (container scan,
+then bare AcraStructs, then bare AcraBlocks). -/
+theorem onColumnCompatT_output (cbsT : List CallbackT) (d : Bytes) :
+    (onColumnCompatT cbsT d).1 = onColumnCompat (cbsT.map (fun f x => (f x).1)) d := onColumnCompatT_fst cbsT d
+
+/-- What the SQL proxies deliver for a column value is `OldContainerDetectorWrapper.OnColumn` with the
+callback list "poison detector (if callbacks are configured), decrypt handler"; the poison detector
+answers "unchanged" unless it raised the alarm and the configured callbacks failed. Without
+callbacks it is exactly the column processor of C01/C03. -/
+theorem proxyOnColumn_output (c : CryptoOps) (cfg : PoisonCfg) (kv : KeyView) (d : Bytes) :
+    (proxyOnColumn c cfg kv d).1 =
+      onColumnCompat ((if cfg.hasCallbacks then [fun x => (poisonCallback c cfg x).1] else []) ++ [decryptCallback c kv]) d := by
+  unfold proxyOnColumn
+  rw [onColumnCompatT_fst]
+  unfold proxyCallbacks outCbs
+  cases cfg.hasCallbacks <;> rfl
+
+/-! ## 4. no callbacks / no poison keys: never an alarm -/
+
+/-- **Without configured intrusion callbacks nothing is ever reported**, whatever the value: the SQL
+proxies do not register the poison detector (and the detector itself returns at once), AcraTranslator
+scans with an empty callback list. -/
+theorem no_callbacks_no_alarm (c : CryptoOps) (cfg : PoisonCfg) (kv : KeyView) (k : Kind) (d : Bytes)
+    (h : cfg.hasCallbacks = false) :
+    (proxyOnColumn c cfg kv d).2 = 0 ∧ (translatorDecrypt c cfg kv k d).2 = 0 := by
+  constructor
+  · apply onColumnCompatT_quiet
+    intro f hf x
+    cases hn : (f x).2 with
+    | false => rfl
+    | true => exact absurd (proxyCallbacks_alarm ⟨f, hf, hn⟩).1 (by simp [h])
+  · unfold translatorDecrypt
+    cases decryptWithHandler c kv k d with
+    | ok m => rfl
+    | panic => rfl
+    | err =>
+      simp only [h, Bool.false_eq_true, if_false]
+      exact onColumnT_quiet [] (fun f hf => nomatch hf) d
+
+/-- **A key store without poison keys never raises the alarm** (`GetPoison…Keys` fail: the detector
+logs "skip poison record check due to a lack of poison keys" and returns the container unchanged). -/
+theorem missing_poison_keys_no_alarm (c : CryptoOps) (cfg : PoisonCfg) (kv : KeyView) (k : Kind) (d : Bytes)
+    (hp : cfg.pk.privs = none) (hs : cfg.pk.syms = none) :
+    (proxyOnColumn c cfg kv d).2 = 0 ∧ (translatorDecrypt c cfg kv k d).2 = 0 := by
+  have hq : ∀ x, (poisonCallback c cfg x).2 = false := by
+    intro x
+    rw [poisonCallback_alarm, isPoison_no_keys c cfg.pk hp hs]
+    simp
+  constructor
+  · apply onColumnCompatT_quiet
+    intro f hf x
+    cases hn : (f x).2 with
+    | false => rfl
+    | true =>
+      have := (proxyCallbacks_alarm ⟨f, hf, hn⟩).2
+      rw [isPoison_no_keys c cfg.pk hp hs] at this
+      cases this
+  · unfold translatorDecrypt
+    cases decryptWithHandler c kv k d with
+    | ok m => rfl
+    | panic => rfl
+    | err =>
+      simp only
+      apply onColumnT_quiet
+      intro f hf x
+      split at hf
+      · rw [List.mem_singleton.1 hf]; exact hq x
+      · cases hf
+
+/-! ## 2. a poison record always raises the alarm
+
+`createPoison c pkW k dataLen rnd = .ok P`: `P` is a poison record of envelope kind `k` made with the
+poison key(s) `pkW` (`poison.CreatePoisonRecord` / `CreateSymmetricPoisonRecord`).
+`RoundTripHyps c k pkW cfg.pk …` are the hypotheses of the C01 round trip for that kind with the
+detector's poison key view `cfg.pk` as reader: the key the record was made with occurs ANYWHERE in the
+detector's poison key history (current or rotated), earlier keys do not accidentally open it. -/
+
+/-- **A poison record inside a column value raises the alarm before the value is delivered** (SQL
+proxies). Callbacks are configured; `P` is a poison record of either kind, made with the current or
+a rotated poison key; it is stored alone or embedded: `pre ++ P ++ suf` with arbitrary `suf` and a
+`pre` none of whose positions is processed by the proxy's callback stack (wrapper, poison detector,
+decrypt handler) – see `poison_detected_in_text` for the checkable condition "no `%` in `pre`".
+Then the alarm count returned together with the value is at least 1 – the intrusion callbacks ran
+before `OnColumn` returned, i.e. before anything was delivered – and when running the callbacks
+returns an error the column processing fails (`fatal`): the value is not delivered at all. -/
+theorem poison_detected (c : CryptoOps) (cfg : PoisonCfg) (kv pkW : KeyView) (k : Kind) (dataLen : Nat)
+    (rnd P pre suf : Bytes)
+    (hcb : cfg.hasCallbacks = true)
+    (hP : createPoison c pkW k dataLen rnd = .ok P)
+    (h : RoundTripHyps c k pkW cfg.pk (rnd.take dataLen) (rnd.drop dataLen) P)
+    (hpre : ∀ i, i < pre.length → ∃ hit,
+      headStep [fun _ => Cb.same, fun x => (poisonCallback c cfg x).1, decryptCallback c kv]
+        ((pre ++ P ++ suf).drop i) = .skip hit) :
+    1 ≤ (proxyOnColumn c cfg kv (pre ++ P ++ suf)).2 ∧
+    (cfg.callbackErr = true → (proxyOnColumn c cfg kv (pre ++ P ++ suf)).1 = .fatal) := by
+  obtain ⟨e, rfl, he, hlen, hproc⟩ := createPoison_facts c k pkW cfg.pk dataLen rnd P h hP
+  exact proxyOnColumn_poison c cfg kv k e pre suf hcb he hlen (isPoison_eq_true.2 ⟨_, hproc suf⟩) hpre
+
+/-- … in particular when the bytes before the record contain no `%` (nothing there can look like a
+container), and in particular for the record alone (`pre = suf = []`). -/
+theorem poison_detected_in_text (c : CryptoOps) (cfg : PoisonCfg) (kv pkW : KeyView) (k : Kind) (dataLen : Nat)
+    (rnd P pre suf : Bytes)
+    (hcb : cfg.hasCallbacks = true)
+    (hP : createPoison c pkW k dataLen rnd = .ok P)
+    (h : RoundTripHyps c k pkW cfg.pk (rnd.take dataLen) (rnd.drop dataLen) P)
+    (hpre : ∀ x ∈ pre, x ≠ 37) :
+    1 ≤ (proxyOnColumn c cfg kv (pre ++ P ++ suf)).2 ∧
+    (cfg.callbackErr = true → (proxyOnColumn c cfg kv (pre ++ P ++ suf)).1 = .fatal) :=
+  poison_detected c cfg kv pkW k dataLen rnd P pre suf hcb hP h
+    (by rw [List.append_assoc]; exact c01_skip_of_no_tag_byte _ pre (P ++ suf) hpre)
+
+theorem poison_detected_alone (c : CryptoOps) (cfg : PoisonCfg) (kv pkW : KeyView) (k : Kind) (dataLen : Nat)
+    (rnd P : Bytes)
+    (hcb : cfg.hasCallbacks = true)
+    (hP : createPoison c pkW k dataLen rnd = .ok P)
+    (h : RoundTripHyps c k pkW cfg.pk (rnd.take dataLen) (rnd.drop dataLen) P) :
+    1 ≤ (proxyOnColumn c cfg kv P).2 ∧ (cfg.callbackErr = true → (proxyOnColumn c cfg kv P).1 = .fatal) := by
+  have := poison_detected_in_text c cfg kv pkW k dataLen rnd P [] [] hcb hP h (by intro x hx; cases hx)
+  simpa using this
+
+/-- **AcraTranslator**: a decrypt request (`Decrypt`, `DecryptSym`, … – any handler kind `k'`) whose data
+contains a poison record, and which the client's own keys do not decrypt, raises the alarm and the
+client gets an error (never the poison record's content, and no hint that it was one). -/
+theorem poison_detected_translator (c : CryptoOps) (cfg : PoisonCfg) (kv pkW : KeyView) (k k' : Kind) (dataLen : Nat)
+    (rnd P pre suf : Bytes)
+    (hcb : cfg.hasCallbacks = true)
+    (hP : createPoison c pkW k dataLen rnd = .ok P)
+    (h : RoundTripHyps c k pkW cfg.pk (rnd.take dataLen) (rnd.drop dataLen) P)
+    (hpre : ∀ x ∈ pre, x ≠ 37)
+    (hfail : ∀ m, decryptWithHandler c kv k' (pre ++ P ++ suf) ≠ .ok m) :
+    (translatorDecrypt c cfg kv k' (pre ++ P ++ suf)).1 = .err ∧
+    1 ≤ (translatorDecrypt c cfg kv k' (pre ++ P ++ suf)).2 := by
+  obtain ⟨e, rfl, he, hlen, hproc⟩ := createPoison_facts c k pkW cfg.pk dataLen rnd P h hP
+  unfold translatorDecrypt
+  cases hd : decryptWithHandler c kv k' (pre ++ serBytes e k.id ++ suf) with
+  | ok m => exact absurd hd (hfail m)
+  | panic => exact absurd hd (decryptWithHandler_ne_panic c kv k' _)
+  | err =>
+    simp only [hcb, if_true]
+    refine ⟨trivial, ?_⟩
+    exact translator_poison c cfg k e pre suf hcb he hlen (isPoison_eq_true.2 ⟨_, hproc suf⟩)
+      (by rw [List.append_assoc]; exact c01_skip_of_no_tag_byte _ pre (serBytes e k.id ++ suf) hpre)
+
+/-- the record alone, as the task of the translator's `Decrypt*` calls usually is -/
+theorem poison_detected_translator_alone (c : CryptoOps) (cfg : PoisonCfg) (kv pkW : KeyView) (k k' : Kind)
+    (dataLen : Nat) (rnd P : Bytes)
+    (hcb : cfg.hasCallbacks = true)
+    (hP : createPoison c pkW k dataLen rnd = .ok P)
+    (h : RoundTripHyps c k pkW cfg.pk (rnd.take dataLen) (rnd.drop dataLen) P)
+    (hfail : ∀ m, decryptWithHandler c kv k' P ≠ .ok m) :
+    (translatorDecrypt c cfg kv k' P).1 = .err ∧ 1 ≤ (translatorDecrypt c cfg kv k' P).2 := by
+  have := poison_detected_translator c cfg kv pkW k k' dataLen rnd P [] [] hcb hP h (by intro x hx; cases hx)
+    (by simpa using hfail)
+  simpa using this
+
+/-! ## 3. no false alarm
+
+`SeenByDetector c cfg kv d s` (in `Envelope/PoisonLemmas.lean`): `s` is one of the byte strings the
+proxy's column processor can hand to the poison detector while processing `d` –
+(1) the rest of `d` from a position where the container tag `%%%` starts,
+(2) the serialized container built around a non-empty contiguous part of `d` cut out by the legacy
+    bare-AcraStruct scan,
+(3) the serialized container built around a non-empty contiguous part of `o1`, the OUTPUT of the legacy
+    bare-AcraStruct scan, cut out by the legacy bare-AcraBlock scan.
+
+Case (3) cannot be dropped, i.e. the statement "an alarm implies that some part of `d` decrypts under
+a poison key" is FALSE as it stands. Counterexample (checked on the executable model with the Shim
+back end): `d` = a bare AcraStruct of the client whose plaintext is a bare poison AcraBlock. With the
+client's keys the column processor returns alarm count 1 (the legacy AcraStruct scan replaces the
+AcraStruct by its plaintext, the legacy AcraBlock scan then finds the poison record in that OUTPUT);
+with a client that has no keys the count is 0 – no part of `d` itself opens under the poison keys.
+The alarm is still not "false": the poison record was in the value, one encryption layer down. -/
+
+/-- **Every alarm is caused by bytes that decrypt under a poison key.** If the SQL proxies' column
+processor reports an alarm for the column value `d`, then callbacks are configured and one of the byte
+strings the poison detector was handed while processing `d` (see `SeenByDetector`) opens under the
+poison keys: `isPoison` = `RegistryHandler.Process` with the poison key view succeeds. -/
+theorem no_false_alarm (c : CryptoOps) (cfg : PoisonCfg) (kv : KeyView) (d : Bytes)
+    (h : 1 ≤ (proxyOnColumn c cfg kv d).2) :
+    cfg.hasCallbacks = true ∧ ∃ s, SeenByDetector c cfg kv d s ∧ isPoison c cfg.pk s = true :=
+  proxyOnColumn_alarm c cfg kv d h
+
+/-- AcraTranslator: an alarm means that the client got an error, callbacks are configured and the rest
+of the data from some position where `%%%` starts opens under the poison keys. -/
+theorem no_false_alarm_translator (c : CryptoOps) (cfg : PoisonCfg) (kv : KeyView) (k : Kind) (d : Bytes)
+    (h : 1 ≤ (translatorDecrypt c cfg kv k d).2) :
+    cfg.hasCallbacks = true ∧ (translatorDecrypt c cfg kv k d).1 = .err ∧
+    ∃ i, i < d.length ∧ startsWith containerTag (d.drop i) = true ∧ isPoison c cfg.pk (d.drop i) = true :=
+  translator_alarm c cfg kv k d h
+
+/-- **… and what opens under a poison key is a genuine envelope sealed under that key** (ideal
+authenticity of the seal, `SealLaws c`; this is C03's `reveal_genuine` for the poison key view:
+`reveal c cfg.pk s = .ok m` is exactly its hypothesis). The internal envelope of the reported bytes is
+an AcraBlock whose wrapped data key is a data key sealed under one of the poison symmetric keys and
+whose data part is `m` sealed under that data key – or an AcraStruct whose wrapped key unwraps
+under one of the poison private keys and whose body is `m` sealed under the unwrapped key. Nobody
+without a poison key can make such bytes: ordinary data cannot raise the alarm. -/
+theorem alarm_genuine (c : CryptoOps) (hs : SealLaws c) (cfg : PoisonCfg) (kv : KeyView) (d : Bytes)
+    (h : 1 ≤ (proxyOnColumn c cfg kv d).2) :
+    ∃ s, SeenByDetector c cfg kv d s ∧ ∃ internal id m, deserialize s = .ok (internal, id) ∧ reveal c cfg.pk s = .ok m ∧
+      ((id = idBlock ∧ ∃ ks, cfg.pk.syms = some ks ∧ ∃ key ∈ ks, ∃ dek n1 n2,
+          n1.length = nonceLen ∧ n2.length = nonceLen ∧
+          c.enc key [] dek n2 = some (blockEncKey internal) ∧ c.enc dek [] m n1 = some (blockEncData internal)) ∨
+       (id = idStruct ∧ ∃ ps, cfg.pk.privs = some ps ∧ ∃ priv ∈ ps, ∃ symKey n2, n2.length = nonceLen ∧ symKey ≠ [] ∧
+          c.unwrap priv ((internal.drop 8).take 45) ((internal.drop 53).take 84) = some symKey ∧
+          c.enc symKey [] m n2 = some (internal.drop 145))) := by
+  obtain ⟨_, s, hseen, hpo⟩ := proxyOnColumn_alarm c cfg kv d h
+  exact ⟨s, hseen, isPoison_genuine c hs cfg.pk s hpo⟩
+
+/-- Contrapositive: **a value no part of which opens under a poison key raises no alarm.** -/
+theorem no_poison_no_alarm (c : CryptoOps) (cfg : PoisonCfg) (kv : KeyView) (d : Bytes)
+    (h : ∀ s, SeenByDetector c cfg kv d s → isPoison c cfg.pk s = false) : (proxyOnColumn c cfg kv d).2 = 0 := by
+  cases hn : (proxyOnColumn c cfg kv d).2 with
+  | zero => rfl
+  | succ n =>
+    obtain ⟨_, s, hseen, hpo⟩ := proxyOnColumn_alarm c cfg kv d (by omega)
+    rw [h s hseen] at hpo
+    cases hpo
+
+/-- **Ordinary data never raises the alarm**: a column value that contains neither `%` nor `"` is not
+handed to any callback – alarm count 0 for every crypto back end, all keys, every configuration
+(no assumption at all). -/
+theorem plain_data_no_alarm (c : CryptoOps) (cfg : PoisonCfg) (kv : KeyView) (d : Bytes) (hl : d.length + 12 < 2^64)
+    (h37 : ∀ x ∈ d, x ≠ 37) (h34 : ∀ x ∈ d, x ≠ 34) : (proxyOnColumn c cfg kv d).2 = 0 :=
+  proxyOnColumn_plain c cfg kv d hl h37 h34
+
+/-- **An ordinary protected value of a client never raises the alarm**: a serialized container
+(`serBytes e k.id`, what `protect` produces) that the reader's keys open to `m` and the poison keys do
+not open, stored between bytes without `%`: the client receives exactly `before ++ m ++ after`, and the
+alarm count is 0 – whether or not callbacks are configured. -/
+theorem client_value_no_alarm (c : CryptoOps) (cfg : PoisonCfg) (kv : KeyView) (k : Kind) (e pre suf m : Bytes)
+    (he : e ≠ []) (hlen : e.length + 12 < 2^63)
+    (hproc : process c kv (serBytes e k.id ++ suf) = .ok m) (hne : m ≠ serBytes e k.id ++ suf)
+    (hnp : isPoison c cfg.pk (serBytes e k.id ++ suf) = false)
+    (hpre : ∀ x ∈ pre, x ≠ 37) (hsuf : ∀ x ∈ suf, x ≠ 37) :
+    proxyOnColumn c cfg kv (pre ++ serBytes e k.id ++ suf) = (.ok (pre ++ m ++ suf) true, 0) :=
+  proxyOnColumn_client_value c cfg kv k e pre suf m he hlen hproc hne hnp hpre hsuf
+
+/-- … and under key commitment (`SealLaws` + `SealCommit`, deliberately no length law) the hypothesis
+"the poison keys do not open it" holds for every AcraBlock-protected value of a client whose
+symmetric key is not one of the poison keys: `protect`, store between text, read back – the client
+gets its plaintext, no alarm. (`RoundTripHyps` are the C01 hypotheses for the reader; for the
+AcraStruct kind the laws of Secure Message say nothing about unwrapping with a foreign private key,
+so there "the poison keys do not open it" stays a hypothesis: `client_value_no_alarm`.) -/
+theorem client_block_no_alarm (c : CryptoOps) (hcm : SealCommit c) (cfg : PoisonCfg) (kvW kvR : KeyView)
+    (m rnd p pre suf : Bytes)
+    (h : RoundTripHyps c .block kvW kvR m rnd p)
+    (hnm : matchKind .block m = false) (hnr : registryMatch m = false)
+    (hp : protect c kvW .block m rnd = .ok p) (hne : m ≠ p ++ suf)
+    (hdisj : ∀ key ks, kvW.sym = some key → cfg.pk.syms = some ks → key ∉ ks)
+    (hpre : ∀ x ∈ pre, x ≠ 37) (hsuf : ∀ x ∈ suf, x ≠ 37) :
+    proxyOnColumn c cfg kvR (pre ++ p ++ suf) = (.ok (pre ++ m ++ suf) true, 0) := by
+  obtain ⟨e, rfl, he, hlen, hproc⟩ := protect_roundtrip_facts c .block kvW kvR m rnd p h hnm hnr hp
+  obtain ⟨hs, key, kpre, kpost, hkid, hW, _, _, hek, hpl⟩ := h
+  have hnp : isPoison c cfg.pk (serBytes e Kind.block.id ++ suf) = false := by
+    cases hpo : isPoison c cfg.pk (serBytes e Kind.block.id ++ suf) with
+    | false => rfl
+    | true =>
+      obtain ⟨m', hm'⟩ := isPoison_eq_true.1 hpo
+      exact absurd hm' (protect_block_not_opened c hs hcm kvW cfg.pk key m rnd _ suf hW hkid hek (by omega) hnm hnr hp
+        (fun ks hks => hdisj key ks hW hks) m')
+  exact proxyOnColumn_client_value c cfg kvR .block e pre suf m he hlen (hproc suf) hne hnp hpre hsuf
+
+/-- **Damaged or foreign records never raise the alarm**: if the poison keys open neither the rest of the
+value at any position where `%%%` starts nor the serialized form of any contiguous part of it, and
+the client's keys do not open the serialized form of any contiguous part as an AcraStruct (so the
+legacy scan replaces nothing), the alarm count is 0. -/
+theorem damaged_no_alarm (c : CryptoOps) (cfg : PoisonCfg) (kv : KeyView) (d : Bytes)
+    (h1 : ∀ i, i < d.length → startsWith containerTag (d.drop i) = true → isPoison c cfg.pk (d.drop i) = false)
+    (h2 : ∀ x id, x <:+: d → x ≠ [] → isPoison c cfg.pk (serBytes x id) = false)
+    (h3 : ∀ x, x <:+: d → x ≠ [] → ∀ m, process c kv (serBytes x idStruct) ≠ .ok m) :
+    (proxyOnColumn c cfg kv d).2 = 0 :=
+  proxyOnColumn_unreadable c cfg kv d h1 h2 h3
+
+/-! ## 5. the poison check comes before anything can replace the container -/
+
+/-- **The model's callback stack is the one the source registers, and the poison detector sees every
+container before a later callback can replace it.** With callbacks configured `proxyCallbacks` is
+"poison detector, decrypt handler" (after the wrapper's own callback) – the order
+`fact_poison_first` reads off `proxyFactory.New` of both SQL proxies – and for ANY list `later` of
+callbacks registered after the poison detector (the decrypt handler, the masking processor, …),
+whatever they answer: a container that opens under the poison keys raises the alarm in the callback
+loop. The poison detector itself never replaces a container (it answers "unchanged" or fails). -/
+theorem poison_checked_before_replace (c : CryptoOps) (cfg : PoisonCfg) (kv : KeyView) (hcb : cfg.hasCallbacks = true) :
+    proxyCallbacks c cfg kv = [poisonCallback c cfg, plainT (decryptCallback c kv)] ∧
+    (["wrapper", "poisonDetector", "decrypt"] = Wiring.pgCallbackOrder ∧
+      ["wrapper", "poisonDetector", "decrypt"] = Wiring.mysqlCallbackOrder) ∧
+    (∀ (later : List CallbackT) (cont : Bytes), isPoison c cfg.pk cont = true →
+      1 ≤ (runCallbacksT cont (plainT (fun _ => Cb.same) :: poisonCallback c cfg :: later)).2) ∧
+    (∀ cont b, (poisonCallback c cfg cont).1 ≠ .replaced b) := by
+  refine ⟨by unfold proxyCallbacks; rw [hcb]; rfl, ⟨by decide, by decide⟩, ?_, ?_⟩
+  · intro later cont hpo
+    exact runCallbacksT_alarm_ge cont [plainT (fun _ => Cb.same)] (poisonCallback c cfg) later
+      (by intro g hg; rw [List.mem_singleton.1 hg]; exact Or.inl rfl)
+      (by rw [poisonCallback_alarm, hcb, hpo]; rfl)
+  · intro cont b
+    rw [poisonCallback_out]
+    split <;> exact fun h => nomatch h
+
+/-! ## 6. non-vacuity: every hypothesis bundle above is met by a concrete instance -/
+
+/-- 2/3 (AcraBlock poison record, stand-in back end, ROTATED poison key, embedded, failing callbacks):
+the record was made with poison key `[1,2,3]`; the detector's key history is `[[4,5],[1,2,3],[1,2,9]]`;
+it sits between `ab` and `c` in a column value. The alarm is raised, the value is not delivered, and
+(`no_false_alarm`) the alarm is explained by bytes that open under the poison keys. -/
+example :
+    let pkW : KeyView := ⟨none, none, some [1,2,3], none⟩
+    let pk : KeyView := ⟨none, none, some [4,5], some ([[4,5]] ++ [1,2,3] :: [[1,2,9]])⟩
+    let cfg : PoisonCfg := ⟨true, true, pk⟩
+    let kv : KeyView := ⟨none, none, some [8], some [[8]]⟩
+    ∃ P, createPoison toyOps pkW .block 3 (List.replicate 59 5) = .ok P ∧
+      1 ≤ (proxyOnColumn toyOps cfg kv ([97,98] ++ P ++ [99])).2 ∧
+      (proxyOnColumn toyOps cfg kv ([97,98] ++ P ++ [99])).1 = .fatal ∧
+      ∃ s, SeenByDetector toyOps cfg kv ([97,98] ++ P ++ [99]) s ∧ isPoison toyOps cfg.pk s = true := by
+  intro pkW pk cfg kv
+  have hs := toy_sealLaws
+  have hsl := toy_sealLen
+  have hkid := keyId_length toyOps toy_hashLen [1,2,3] []
+  obtain ⟨b, hb⟩ := block_create_total toyOps hs [1,2,3] [] ((List.replicate 59 5).take 3) ((List.replicate 59 5).drop 3)
+    (by decide) (by decide) (by decide) (by decide)
+  obtain ⟨hbl, _, hek⟩ := block_sizes toyOps hs hsl _ _ _ _ b hkid hb
+  have hbne : b ≠ [] := by intro h; rw [h] at hbl; simp at hbl
+  have hP : createPoison toyOps pkW .block 3 (List.replicate 59 5) = .ok (serBytes b idBlock) := by
+    rw [createPoison_block_eq toyOps pkW [1,2,3] 3 _ b rfl hb, c01_serialize_eq _ hbne]
+  have hH : RoundTripHyps toyOps .block pkW cfg.pk ((List.replicate 59 5).take 3) ((List.replicate 59 5).drop 3)
+      (serBytes b idBlock) := by
+    refine ⟨hs, [1,2,3], [[4,5]], [[1,2,9]], hkid, rfl, rfl, ?_, ?_, ?_⟩
+    · intro k' hk' encKey _ hid
+      simp only [List.mem_singleton] at hk'
+      subst hk'
+      exact absurd hid (by decide)
+    · intro ek h; rw [hek ek h]; decide
+    · rw [c01_serBytes_length, hbl]; decide
+  obtain ⟨h1, h2⟩ := poison_detected_in_text toyOps cfg kv pkW .block 3 _ _ [97,98] [99] rfl hP hH (by decide)
+  exact ⟨_, hP, h1, h2 rfl, (no_false_alarm toyOps cfg kv _ h1).2⟩
+
+/-- 2 (AcraStruct poison record, executable stand-in back end, AcraTranslator): the record alone is sent
+to `DecryptSym` by a client that has no keys – error for the client, alarm raised; in the SQL proxy
+with working callbacks the alarm is raised as well. -/
+example :
+    let priv := shimOps.privOfSeed (List.replicate 32 1)
+    let other := shimOps.privOfSeed (List.replicate 32 2)
+    let pkW : KeyView := ⟨some (shimOps.pubOf priv), none, none, none⟩
+    let pk : KeyView := ⟨none, some ([] ++ priv :: [other]), none, none⟩
+    let cfg : PoisonCfg := ⟨true, false, pk⟩
+    let kv : KeyView := ⟨none, none, none, none⟩
+    ∃ P, createPoison shimOps pkW .struct 4 (List.replicate 92 7) = .ok P ∧
+      (translatorDecrypt shimOps cfg kv .block P).1 = .err ∧ 1 ≤ (translatorDecrypt shimOps cfg kv .block P).2 ∧
+      1 ≤ (proxyOnColumn shimOps cfg kv P).2 := by
+  intro priv other pkW pk cfg kv
+  have hpriv : shimOps.validPriv priv = true := shim_keygenLaws.valid_seed _ (by decide)
+  obtain ⟨b, hb⟩ := struct_create_total shimOps shim_sealLaws shim_msgLaws shim_keygenLaws priv []
+    ((List.replicate 92 7).take 4) ((List.replicate 92 7).drop 4) hpriv (by decide) (by decide) (by decide)
+  have hbne : b ≠ [] := by
+    obtain ⟨encKey, encData, _, _, hss⟩ := c01_createStruct_ok hb
+    rw [hss]
+    intro h
+    have := congrArg List.length h
+    simp [c01_structTag_length] at this
+  have hP : createPoison shimOps pkW .struct 4 (List.replicate 92 7) = .ok (serBytes b idStruct) := by
+    rw [createPoison_struct_eq shimOps pkW _ 4 _ b rfl hb, c01_serialize_eq _ hbne]
+  have hH : RoundTripHyps shimOps .struct pkW cfg.pk ((List.replicate 92 7).take 4) ((List.replicate 92 7).drop 4)
+      (serBytes b idStruct) :=
+    ⟨shim_sealLaws, shim_sealLen, shim_msgLaws, shim_msgLen, shim_keygenLaws, priv, [], [other], hpriv, rfl, rfl, by simp⟩
+  obtain ⟨h1, h2⟩ := poison_detected_translator_alone shimOps cfg kv pkW .struct .block 4 _ _ rfl hP hH
+    (fun m => decryptWithHandler_no_keys shimOps kv rfl rfl _ _ m)
+  exact ⟨_, hP, h1, h2, (poison_detected_alone shimOps cfg kv pkW .struct 4 _ _ rfl hP hH).1⟩
+
+/-- 3 (contrapositives): plain text; a value nobody can open although it carries all tags; and under key
+commitment (`boxOps`) an AcraBlock-protected value of a client whose key `[1,2,3]` is not among the
+poison keys `[[9,9],[1,2,4]]` (the second has the same 2-byte key id) – all with callbacks configured. -/
+example :
+    let pk : KeyView := ⟨none, none, some [9,9], some [[9,9],[1,2,4]]⟩
+    let cfg : PoisonCfg := ⟨true, false, pk⟩
+    let kvW : KeyView := ⟨none, none, some [1,2,3], none⟩
+    let kvR : KeyView := ⟨none, none, some [1,2,3], some ([] ++ [1,2,3] :: [])⟩
+    (proxyOnColumn boxOps cfg kvR [104,105,32,116,104,101,114,101]).2 = 0 ∧
+    (proxyOnColumn boxOps ⟨true, false, ⟨none, none, none, none⟩⟩ ⟨none, none, none, none⟩
+      [37,37,37,34,34,34,34,34,34,34,34,1,2,3]).2 = 0 ∧
+    ∃ p, protect boxOps kvW .block [9,9] (List.replicate 56 5) = .ok p ∧
+      proxyOnColumn boxOps cfg kvR ([97] ++ p ++ [98]) = (.ok ([97] ++ [9,9] ++ [98]) true, 0) := by
+  intro pk cfg kvW kvR
+  refine ⟨plain_data_no_alarm boxOps cfg kvR _ (by decide) (by decide) (by decide), ?_, ?_⟩
+  · exact damaged_no_alarm boxOps _ _ _ (fun i _ _ => isPoison_no_keys boxOps _ rfl rfl _)
+      (fun x id _ _ => isPoison_no_keys boxOps _ rfl rfl _) (fun x _ _ m => process_no_keys boxOps _ rfl rfl _ m)
+  · have hs := Box.sealLaws
+    have hnm : matchKind .block [9,9] = false := by decide
+    have hnr : registryMatch [9,9] = false := by decide
+    have hkid : (keyId boxOps [1,2,3] []).length = 2 := by decide
+    have e1 : boxOps.enc ((List.replicate 56 5).take 32) [] [9,9] (((List.replicate 56 (5:UInt8)).drop 32).take 12) =
+        some (Box.esc (List.replicate 32 5) ++ (Box.esc [] ++ (Box.esc (List.replicate 12 5) ++ [9,9]))) := by decide
+    have e2 : boxOps.enc [1,2,3] [] ((List.replicate 56 5).take 32) (((List.replicate 56 (5:UInt8)).drop 44).take 12) =
+        some (Box.esc [1,2,3] ++ (Box.esc [] ++ (Box.esc (List.replicate 12 5) ++ List.replicate 32 5))) := by decide
+    have hek : ∀ encKey, boxOps.enc [1,2,3] [] ((List.replicate 56 5).take 32) (((List.replicate 56 (5:UInt8)).drop 44).take 12) = some encKey →
+        encKey.length < 65536 := by
+      intro encKey h; rw [e2] at h; cases h; decide
+    obtain ⟨p, hp⟩ := protect_block_total boxOps hs kvW [1,2,3] [9,9] (List.replicate 56 5) rfl (by decide)
+      (by decide) (by decide) (by decide)
+    have hpl : 2 < p.length ∧ p.length < 2^63 := by
+      obtain ⟨e, he, _, rfl⟩ := c01_protect_ok hp hnm hnr
+      obtain ⟨key', hk', hcb⟩ := c01_encryptKind_block he hnm
+      cases hk'
+      obtain ⟨encData, encKey, h1, h2, rfl⟩ := c01_createBlock_ok hcb
+      rw [e1] at h1; rw [e2] at h2
+      cases h1; cases h2
+      rw [c01_serBytes_length, c01_buildBlock_length _ _ _ hkid]
+      decide
+    refine ⟨p, hp, client_block_no_alarm boxOps Box.sealCommit cfg kvW kvR [9,9] _ p [97] [98]
+      ⟨hs, [1,2,3], [], [], hkid, rfl, rfl, by simp, hek, hpl.2⟩ hnm hnr hp ?_ ?_ (by decide) (by decide)⟩
+    · intro h
+      have := congrArg List.length h
+      rw [List.length_append] at this
+      simp at this
+      omega
+    · intro key ks hk hks
+      cases hk; cases hks
+      decide
+
+/-- 4/5: the hypotheses are plain configuration facts -/
+example : (proxyOnColumn shimOps ⟨false, false, ⟨none, none, some [1], some [[1]]⟩⟩ ⟨none, none, none, none⟩ [37,37,37,1]).2 = 0 ∧
+    (proxyOnColumn shimOps ⟨true, true, ⟨none, none, none, none⟩⟩ ⟨none, none, none, none⟩ [37,37,37,1]).2 = 0 :=
+  ⟨(no_callbacks_no_alarm shimOps _ _ .block _ rfl).1, (missing_poison_keys_no_alarm shimOps _ _ .block _ rfl rfl).1⟩
+
+example : proxyCallbacks boxOps ⟨true, false, ⟨none, none, some [1], some [[1]]⟩⟩ ⟨none, none, none, none⟩ =
+    [poisonCallback boxOps ⟨true, false, ⟨none, none, some [1], some [[1]]⟩⟩, plainT (decryptCallback boxOps ⟨none, none, none, none⟩)] :=
+  (poison_checked_before_replace boxOps _ _ rfl).1
 
 end AcraModel.Props.C15
